@@ -114,6 +114,8 @@ SPECS = [
     {'conv': 'shoc_simple', 'ny': 3, 'nx': 4, 'bounds': 'vars'}, {'conv': 'shoc_simple', 'ny': 3, 'nx': 4, 'bounds': 'vars', 'first_plain': True},
     {'conv': 'shoc_simple', 'ny': 3, 'nx': 4},
     {'conv': 'shoc_standard', 'ny': 3, 'nx': 4}, {'conv': 'shoc_standard', 'ny': 3, 'nx': 4, 'node_holes': [[0, 0], [2, 2]]},
+    # a masked region of the node grid that leaves a lone finite node no complete cell uses (it must not widen the reported extent)
+    {'conv': 'shoc_standard', 'ny': 3, 'nx': 4, 'node_holes': [[0, 4], [1, 4], [2, 4], [0, 3], [1, 3]]},
     {'conv': 'shoc_standard', 'ny': 2, 'nx': 3, 'as_coords': False}, {'conv': 'shoc_standard', 'ny': 1, 'nx': 3, 'radial': True},
     {'conv': 'ugrid', 'ny': 2, 'nx': 3}, {'conv': 'ugrid', 'ny': 3, 'nx': 3, 'split': [[0, 0], [1, 2]], 'merge': [[2, 0]]},
     {'conv': 'ugrid', 'ny': 2, 'nx': 3, 'split': [[0, 1]], 'start_index': 1, 'fill': 'nan'},
@@ -205,6 +207,8 @@ def build_invalid(inp):
         j, i = (2, 2) if inp['where'] == 'interior' else (3, 4)
         ds['x_grid'].values[j, i] -= 3.0
         ds['y_grid'].values[j, i] -= 3.0
+        if inp['where'] == 'border':
+            ds['y_grid'].values[j, i] += 9.0        # folded outwards: the node lies beyond every kept cell
         return ds, None, 12
     ds = datasets.build({'conv': 'ugrid', 'ny': 2, 'nx': 3})
     fn = ds['Mesh2_face_nodes'].values
@@ -242,9 +246,12 @@ def test_invalid(inp):
     return None
 
 
+CLASS_OF = {'cf1d': 'CFGrid', 'cf2d': 'CFGrid', 'shoc_simple': 'CFGrid', 'shoc_standard': 'ArakawaC', 'ugrid': 'UGrid'}
+
+
 def key_invalid(inp, detail):
     if 'differ from the bounding box of the kept polygons' in detail:
-        return 'extent:dropped-cell-still-in-bounds'
+        return f"extent:{CLASS_OF[inp['conv']]}.bounds:dropped-cell-still-in-bounds"        # per bounds implementation: another class failing is another finding
     return f"invalid:{inp['conv']}"
 
 
@@ -252,7 +259,7 @@ def key_poly(inp, detail):
     if inp['spec']['conv'] in ('cf2d', 'shoc_simple') and not inp['spec'].get('bounds') and 'polygon present but' in detail:
         return 'polygons:cf2d-missing-centre-gets-polygon'
     if 'bounds' in detail and 'bounding box of the polygons' in detail:
-        return 'extent:bounds-override'
+        return f"extent:{CLASS_OF[inp['spec']['conv']]}.bounds:bounds-override"
     return f"polygons:{inp['spec']['conv']}"
 
 
